@@ -195,7 +195,8 @@ theorem c11_nr_flag_iff_maxsteps (c : NRCfg F) (obj : F → Eval F) (ns0 : F) (o
   · simp only [Good] at hg
     obtain ⟨_, _, _, _, hlt, hflag, _⟩ := hg
     have hne : ¬ o.niter = c.steps := by omega
-    have hfl' : o.flag = flag := by rw [hfl]; simp [hne]
+    have hnle : ¬ c.maxSteps ≤ (o.niter : Int) := by unfold NRCfg.steps at hlt; omega
+    have hfl' : o.flag = flag := by rw [hfl]; simp [hnle]
     rcases hflag with ⟨hf2, _⟩ | ⟨hf1, _⟩
     · rw [hfl', hf2, hat]; refine ⟨?_, by omega, Or.inl rfl, by simp⟩
       constructor
@@ -208,10 +209,30 @@ theorem c11_nr_flag_iff_maxsteps (c : NRCfg F) (obj : F → Eval F) (ns0 : F) (o
   · simp only [Good] at hg
     obtain ⟨_, _, hle, _⟩ := hg
     by_cases hm : o.niter = c.steps
-    · have : o.flag = 1 := by rw [hfl]; simp [hm]
+    · have hle' : c.maxSteps ≤ (o.niter : Int) := by unfold NRCfg.steps at hm; omega
+      have : o.flag = 1 := by rw [hfl]; simp [hle']
       rw [this, hat]; exact ⟨by simp [hm], hle, by simp, by simp⟩
-    · have : o.flag = 0 := by rw [hfl]; simp [hm]
+    · have hle' : ¬ c.maxSteps ≤ (o.niter : Int) := by unfold NRCfg.steps at hm hle; omega
+      have : o.flag = 0 := by rw [hfl]; simp [hle']
       rw [this, hat]; exact ⟨by simp [hm], hle, by simp, by simp⟩
+
+/-- the flag test as the code has it (`niter >= max_steps`, `max_steps` any integer): flag 1 exactly when the
+step counter reached `max_steps`; in particular **a negative `max_steps` is never reported as converged**. -/
+theorem c11_nr_flag_int (c : NRCfg F) (obj : F → Eval F) (ns0 : F) (o : NROut F)
+    (h : nr c obj ns0 = .ok o) (hb : c.nsMin ≤ c.nsMax) (h0 : ns0 ≤ c.nsMax) :
+    (o.flag = 1 ↔ c.maxSteps ≤ (o.niter : Int)) ∧ (c.maxSteps < 0 → o.flag = 1 ∧ o.niter = 0 ∧ o.x = ns0) := by
+  obtain ⟨h1, h2, _, _⟩ := c11_nr_flag_iff_maxsteps c obj ns0 o h hb h0
+  refine ⟨by rw [h1]; unfold NRCfg.steps at h2 ⊢; omega, ?_⟩
+  intro hneg
+  have hs : c.steps = 0 := by unfold NRCfg.steps; omega
+  have hn : o.niter = 0 := by omega
+  refine ⟨h1.mpr (by omega), hn, ?_⟩
+  -- with no fuel the loop returns its start point
+  unfold nr at h
+  split_ifs at h with hlt
+  rw [hs] at h
+  simp only [nrLoop, Except.ok.injEq] at h
+  rw [← h]
 
 /-- **flag 0 = converged**: the loop was left because the last Newton step is not larger than the
 tolerance *and* the slope it was computed from is not larger than the slope threshold; if a step was
@@ -264,8 +285,8 @@ theorem c11_nr_boundary_outward (c : NRCfg F) (obj : F → Eval F) (ns0 : F) (o 
   rcases nr_ok c obj ns0 o h hb.le h0 with ⟨ev, flag, qs, hg, _, hflag, hat, _⟩ | ⟨qs, hg, _, _, hat, _⟩
   · simp only [Good] at hg
     obtain ⟨_, hev, hst, _, hlt, hcases, _⟩ := hg
-    have hne : ¬ o.niter = c.steps := by omega
-    have hfl' : o.flag = flag := by rw [hflag]; simp [hne]
+    have hnle : ¬ c.maxSteps ≤ (o.niter : Int) := by unfold NRCfg.steps at hlt; omega
+    have hfl' : o.flag = flag := by rw [hflag]; simp [hnle]
     rw [hev] at hst
     rcases hcases with ⟨hf2, hx, hs⟩ | ⟨hf1, _, hx, hs⟩
     · constructor
@@ -1362,7 +1383,8 @@ theorem c11_nr_flat (c : NRCfg K) (obj : K → Eval K) (ns0 : K)
     (hms : 1 < c.maxSteps) (htol : 0 ≤ c.nsTol) (hthr : 0 ≤ c.slopeThr)
     (hkeep : keepGoing c (c.nsTol + 1) c.fp0 = true) :
     ∃ o, nr c obj ns0 = .ok o ∧ o.x = ns0 ∧ o.f = (obj ns0).f ∧ o.flag = 0 ∧ o.niter = 1 ∧ o.lastStep = 0 := by
-  obtain ⟨m, hm⟩ : ∃ m, c.maxSteps = m + 2 := ⟨c.maxSteps - 2, by omega⟩
+  obtain ⟨m, hm⟩ : ∃ m : Nat, c.steps = m + 2 := ⟨c.steps - 2, by unfold NRCfg.steps; omega⟩
+  have hnle : ¬ c.maxSteps ≤ ((1 : Nat) : Int) := by omega
   have hstep : newtonStep (obj ns0) = 0 := by simp [newtonStep, hflat ns0]
   have hout : outward c ns0 (0 : K) = false := by simp [outward]
   have hclip : clipNs c.nsMin c.nsMax (ns0 + 0) = ns0 := by rw [add_zero]; exact C11.clipNs_id _ _ _ hlo hhi
@@ -1372,7 +1394,8 @@ theorem c11_nr_flat (c : NRCfg K) (obj : K → Eval K) (ns0 : K)
     unfold nr
     rw [if_neg (not_lt.mpr hlo), hm]
     have hclip' : clipNs c.nsMin c.nsMax ns0 = ns0 := C11.clipNs_id _ _ _ hlo hhi
-    simp [nrLoop, hkeep, hstep, hout, hclip', hstop]
+    have hnle' : ¬ c.maxSteps ≤ 1 := by simpa using hnle
+    simp [nrLoop, hkeep, hstep, hout, hclip', hstop, hnle']
   exact ⟨_, hnr, rfl, rfl, rfl, rfl, rfl⟩
 
 /-- **forced bound, slope pointing outward**: for an objective with positive curvature, flag −2 means
@@ -1633,6 +1656,109 @@ theorem c11_nr_converged_near_stationary (c : NRCfg ℝ) (f f' f'' : ℝ → ℝ
     _ ≤ |o.x - o.xPrev| + |o.xPrev - xs| := abs_add_le _ _
     _ ≤ c.nsTol + c.slopeThr / m := add_le_add hclose hdist
 
+namespace C11
+/-- `h(x) = f(x) − K/2 (x − xs)²` does not increase over `[a, b]` when `f'(x) ≤ K (x − xs)` inside -/
+theorem quad_upper (f f' : ℝ → ℝ) (hd : ∀ x, HasDerivAt f (f' x) x) (K xs a b : ℝ) (hab : a ≤ b)
+    (hder : ∀ x ∈ Set.Ioo a b, f' x - K * (x - xs) ≤ 0) :
+    (f b - K / 2 * (b - xs) ^ 2) - (f a - K / 2 * (a - xs) ^ 2) ≤ 0 := by
+  have hh : ∀ x, HasDerivAt (fun x => f x - K / 2 * (x - xs) ^ 2) (f' x - K * (x - xs)) x := by
+    intro x
+    have h1 := (((hasDerivAt_id x).sub_const xs).pow 2).const_mul (K / 2)
+    have h2 := (hd x).sub h1
+    convert h2 using 1
+    ring
+  have := (convex_Icc a b).image_sub_le_mul_sub_of_deriv_le (f := fun x => f x - K / 2 * (x - xs) ^ 2) (C := 0)
+    (fun x _ => (hh x).continuousAt.continuousWithinAt)
+    (fun x _ => (hh x).differentiableAt.differentiableWithinAt)
+    (fun x hx => by rw [(hh x).deriv]; rw [interior_Icc] at hx; exact hder x hx)
+    a (Set.left_mem_Icc.mpr hab) b (Set.right_mem_Icc.mpr hab) hab
+  simpa using this
+
+theorem quad_lower (f f' : ℝ → ℝ) (hd : ∀ x, HasDerivAt f (f' x) x) (K xs a b : ℝ) (hab : a ≤ b)
+    (hder : ∀ x ∈ Set.Ioo a b, 0 ≤ f' x - K * (x - xs)) :
+    0 ≤ (f b - K / 2 * (b - xs) ^ 2) - (f a - K / 2 * (a - xs) ^ 2) := by
+  have hh : ∀ x, HasDerivAt (fun x => f x - K / 2 * (x - xs) ^ 2) (f' x - K * (x - xs)) x := by
+    intro x
+    have h1 := (((hasDerivAt_id x).sub_const xs).pow 2).const_mul (K / 2)
+    have h2 := (hd x).sub h1
+    convert h2 using 1
+    ring
+  have := (convex_Icc a b).mul_sub_le_image_sub_of_le_deriv (f := fun x => f x - K / 2 * (x - xs) ^ 2) (C := 0)
+    (fun x _ => (hh x).continuousAt.continuousWithinAt)
+    (fun x _ => (hh x).differentiableAt.differentiableWithinAt)
+    (fun x hx => by rw [(hh x).deriv]; rw [interior_Icc] at hx; exact hder x hx)
+    a (Set.left_mem_Icc.mpr hab) b (Set.right_mem_Icc.mpr hab) hab
+  simpa using this
+end C11
+
+/-- **the maximised likelihood is not below its value at the initial point, up to a second-order term**
+(E2 at the strength of the text, under curvature bounds): `f = −llh` with `m ≤ f'' ≤ M` on the interval and a
+stationary point `xs` in it; a flag-0 NR result satisfies
+`f(x*) ≤ f(y) + M/2 · (ns_tol + slope_thr / m)²` for **every** `y` of the interval, in particular `y = ns0`. -/
+theorem c11_nr_converged_value_bound (c : NRCfg ℝ) (f f' f'' : ℝ → ℝ) (ns0 m M xs : ℝ) (o : NROut ℝ)
+    (h : nr c (fun x => ⟨f x, f' x, f'' x⟩) ns0 = .ok o) (hb : c.nsMin ≤ c.nsMax) (h0 : ns0 ≤ c.nsMax)
+    (hd : ∀ x, HasDerivAt f (f' x) x) (hd' : ∀ x, HasDerivAt f' (f'' x) x) (hm : 0 < m)
+    (hcurv : ∀ x ∈ Set.Icc c.nsMin c.nsMax, m ≤ f'' x ∧ f'' x ≤ M)
+    (hxs : xs ∈ Set.Icc c.nsMin c.nsMax) (hstat : f' xs = 0) (hflag : o.flag = 0) (hn : 0 < o.niter) :
+    ∀ y ∈ Set.Icc c.nsMin c.nsMax, o.f ≤ f y + M / 2 * (c.nsTol + c.slopeThr / m) ^ 2 := by
+  set obj : ℝ → Eval ℝ := fun x => ⟨f x, f' x, f'' x⟩ with hobj
+  have hin : o.x ∈ Set.Icc c.nsMin c.nsMax := (c11_nr_in_bounds c obj ns0 o h hb h0).1
+  have hcons : o.f = f o.x := c11_nr_fmin_consistent c obj ns0 o h hb h0
+  have hnear := c11_nr_converged_near_stationary c f f' f'' ns0 m xs o h hb h0
+    (fun x _ => (hd' x).hasDerivWithinAt) hm (fun x hx => (hcurv x hx).1) hxs hstat hflag hn
+  -- mean value inequalities for f' on the interval
+  have mvtL : ∀ x ∈ Set.Icc c.nsMin c.nsMax, ∀ y ∈ Set.Icc c.nsMin c.nsMax, x ≤ y → m * (y - x) ≤ f' y - f' x :=
+    (convex_Icc c.nsMin c.nsMax).mul_sub_le_image_sub_of_le_deriv
+      (fun x _ => (hd' x).continuousAt.continuousWithinAt)
+      (fun x _ => (hd' x).differentiableAt.differentiableWithinAt)
+      (fun x hx => by rw [(hd' x).deriv]; exact (hcurv x (interior_subset hx)).1)
+  have mvtU : ∀ x ∈ Set.Icc c.nsMin c.nsMax, ∀ y ∈ Set.Icc c.nsMin c.nsMax, x ≤ y → f' y - f' x ≤ M * (y - x) :=
+    (convex_Icc c.nsMin c.nsMax).image_sub_le_mul_sub_of_deriv_le
+      (fun x _ => (hd' x).continuousAt.continuousWithinAt)
+      (fun x _ => (hd' x).differentiableAt.differentiableWithinAt)
+      (fun x hx => by rw [(hd' x).deriv]; exact (hcurv x (interior_subset hx)).2)
+  have sub : ∀ {a b x : ℝ}, a ∈ Set.Icc c.nsMin c.nsMax → b ∈ Set.Icc c.nsMin c.nsMax → x ∈ Set.Ioo a b →
+      x ∈ Set.Icc c.nsMin c.nsMax := fun ha hb' hx => ⟨le_trans ha.1 hx.1.le, le_trans hx.2.le hb'.2⟩
+  -- xs minimises f over the interval
+  have hmin : ∀ y ∈ Set.Icc c.nsMin c.nsMax, f xs ≤ f y := by
+    intro y hy
+    rcases le_total xs y with hle | hle
+    · have := C11.quad_lower f f' hd 0 xs xs y hle (fun x hx => by
+        have := mvtL xs hxs x (sub hxs hy hx) hx.1.le
+        rw [hstat] at this
+        nlinarith [hx.1])
+      simp at this; linarith
+    · have := C11.quad_upper f f' hd 0 xs y xs hle (fun x hx => by
+        have := mvtL x (sub hy hxs hx) xs hxs hx.2.le
+        rw [hstat] at this
+        nlinarith [hx.2])
+      simp at this; linarith
+  -- quadratic upper bound around xs
+  have hup : ∀ y ∈ Set.Icc c.nsMin c.nsMax, f y ≤ f xs + M / 2 * (y - xs) ^ 2 := by
+    intro y hy
+    rcases le_total xs y with hle | hle
+    · have := C11.quad_upper f f' hd M xs xs y hle (fun x hx => by
+        have := mvtU xs hxs x (sub hxs hy hx) hx.1.le
+        rw [hstat] at this
+        linarith)
+      simp at this; linarith
+    · have := C11.quad_lower f f' hd M xs y xs hle (fun x hx => by
+        have := mvtU x (sub hy hxs hx) xs hxs hx.2.le
+        rw [hstat] at this
+        linarith)
+      simp at this; linarith
+  have hM : 0 ≤ M := le_trans hm.le (le_trans (hcurv xs hxs).1 (hcurv xs hxs).2)
+  intro y hy
+  have h1 := hup o.x hin
+  have h2 := hmin y hy
+  have hsq : (o.x - xs) ^ 2 ≤ (c.nsTol + c.slopeThr / m) ^ 2 := by
+    have h3 := abs_nonneg (o.x - xs)
+    calc (o.x - xs) ^ 2 = |o.x - xs| ^ 2 := (sq_abs _).symm
+      _ ≤ (c.nsTol + c.slopeThr / m) ^ 2 := pow_le_pow_left₀ h3 hnear 2
+  have : M / 2 * (o.x - xs) ^ 2 ≤ M / 2 * (c.nsTol + c.slopeThr / m) ^ 2 :=
+    mul_le_mul_of_nonneg_left hsq (by linarith)
+  rw [hcons]; linarith
+
 /-! ## non-vacuity: concrete inputs meeting the hypotheses -/
 
 namespace C11.Examples
@@ -1651,6 +1777,8 @@ example : ∃ o, nr cfgZ (fun x => ⟨(x - 20) * (x - 20), 2 * (x - 20), 2⟩) 6
     o.flag = -1 := ⟨_, rfl, rfl, rfl⟩
 /-- step budget exhausted: flag 1 -/
 example : ∃ o, nr { cfgZ with maxSteps := 1 } objZ 6 = .ok o ∧ o.flag = 1 := ⟨_, rfl, rfl⟩
+/-- negative step budget: no step, reported as not converged -/
+example : ∃ o, nr { cfgZ with maxSteps := -3 } objZ 6 = .ok o ∧ o.flag = 1 ∧ o.niter = 0 := ⟨_, rfl, rfl, rfl⟩
 /-- flat objective: no step, flag 0 at the initial point -/
 example : ∃ o, nr cfgZ (fun _ => ⟨0, 0, 0⟩) 6 = .ok o ∧ o.x = 6 ∧ o.flag = 0 ∧ o.niter = 1 :=
   ⟨_, rfl, rfl, rfl, rfl⟩
